@@ -141,6 +141,7 @@ func (ex *Exec) instr(s *State, fr *Frame, in ssa.Instruction) {
 			bs = append(bs, ex.val(fr, b))
 		}
 		fr.env[x] = FuncV{Fn: x.Fn.(*ssa.Function), Bindings: bs}
+		ex.checkCaptures(s, fr, x, bs)
 	case *ssa.RunDefers:
 	default:
 		ex.unsupported("instruction %T (%s) in %s", in, in, fr.fn.Name())
